@@ -720,11 +720,13 @@ def hist_python(fam, ops):
 
 # ------------------------------------------------------------------ the deterministic lattice
 
-def lattice(fresh, max_len=6):
+def lattice_shapes(fresh):
     """Parent / Child(Parent) / Holder(field e: Child or Parent, directly or through Array/Optional/Set) x every
     ordering of every subset (up to max_len) of
-        {create(P), create(C), create(H), inst(P), inst(C), inst+serialize(H without a value for e)}
-    before the holder is instantiated with a Child/Parent value and everything is serialized."""
+        {create(P), create(C), create(H), inst(P), inst(C), inst+serialize(H without a value for e),
+         inst+serialize(H with the value), create(C, serialize_none=True)}
+    before the holder is instantiated with a Child/Parent value and everything is serialized.
+    Returns per shape (family, pool of op groups, final op)."""
     intf = {"t": "prim", "f": dict(T.INTF)}
     strf = {"t": "prim", "f": {"t": "str"}}
     out = []
@@ -732,9 +734,9 @@ def lattice(fresh, max_len=6):
                                                       ["none", "child"]):
         p = {"name": fresh("Lp"), "base": None, "fields": [{"name": "a", "ty": intf, "default": None}], "fast": True,
              "required": None, "additional": None, "ignore_none": False, "mapper": None}
-        c = {"name": fresh("Lc"), "base": p["name"], "fast": True, "required": None, "additional": None,
+        c = {"name": fresh("Lc"), "base": p["name"], "fast": True, "required": ["user_name"], "additional": None,
              "ignore_none": False, "mapper": "camel" if mapper_on == "child" else None,
-             "fields": [{"name": "user_name", "ty": strf, "default": None}]}
+             "fields": [{"name": "user_name", "ty": strf, "default": None}, {"name": "x_9", "ty": intf, "default": None}]}
         ref = {"t": "ref", "cls": c["name"] if target == "child" else p["name"]}
         ty = {"ref": ref, "array": {"t": "array", "item": ref}, "opt": {"t": "opt", "nf": False, "f": ref},
               "set": {"t": "set", "item": ref}}[kind]
@@ -751,18 +753,39 @@ def lattice(fresh, max_len=6):
         he = ("struct", hcls["name"], [("n2", ("int", 5))] + empty)
         pool = [[["create", p["name"], False, False]], [["create", c["name"], False, False]],
                 [["create", hcls["name"], False, False]], [["inst", p["name"], pd, False]],
-                [["inst", c["name"], cd, False]], [["inst", hcls["name"], he, False], ["ser", None]]]
-        for r in range(0, min(max_len, len(pool)) + 1):
-            for perm in itertools.permutations(range(len(pool)), r):
-                ops, n_inst = [], 0
-                for i in perm:
-                    for op in copy.deepcopy(pool[i]):
-                        if op[0] == "inst":
-                            n_inst += 1
-                        if op[0] == "ser":
-                            op[1] = n_inst - 1
-                        ops.append(op)
-                out.append((fam, ops + [["inst", hcls["name"], hd, False]], r))
+                [["inst", c["name"], cd, False]], [["inst", hcls["name"], he, False], ["ser", None]],
+                [["inst", hcls["name"], hd, False], ["ser", None]],      # first use with a value ...
+                [["create", c["name"], True, False]]]                     # ... and a serializer re-created with other flags
+        out.append((fam, pool, ["inst", hcls["name"], hd, False]))
+    return out
+
+
+def lattice_case(shape, perm):
+    fam, pool, final = shape
+    ops, n_inst = [], 0
+    for i in perm:
+        for op in copy.deepcopy(pool[i]):
+            if op[0] == "inst":
+                n_inst += 1
+            if op[0] == "ser":
+                op[1] = n_inst - 1
+            ops.append(op)
+    return fam, ops + [copy.deepcopy(final)]
+
+
+def lattice_cases(rnd, fresh, spec):
+    """spec = (max schedule length, complete up to this length, number of longer schedules sampled with rnd)"""
+    max_len, full, n_sample = spec
+    shapes = lattice_shapes(fresh)
+    out = []
+    for shape in shapes:
+        for r in range(0, full + 1):
+            for perm in itertools.permutations(range(len(shape[1])), r):
+                out.append(lattice_case(shape, perm))
+    for _ in range(n_sample):
+        shape = rnd.choice(shapes)
+        r = rnd.randint(full + 1, max(full + 1, min(max_len, len(shape[1]))))
+        out.append(lattice_case(shape, rnd.sample(range(len(shape[1])), r)))
     return out
 
 
@@ -848,11 +871,7 @@ def report_obs(rep, h, ops, found_in):
 
 def stream_fast_hist(rep, rnd, n, lattice_spec, model_ok, fresh, eval_shards):
     cases = []
-    lat = lattice(fresh, max_len=lattice_spec[0])
-    short = [x for x in lat if x[2] <= lattice_spec[1]]          # complete up to this schedule length
-    longer = [x for x in lat if x[2] > lattice_spec[1]]
-    rnd.shuffle(longer)                                          # plus a seeded sample of the longer ones
-    for fam, ops, _ in short + longer[:lattice_spec[2]]:
+    for fam, ops in lattice_cases(rnd, fresh, lattice_spec):
         cases.append((fam, ops, "lattice"))
     for _ in range(n):
         fam = gen_family(rnd, fresh)
